@@ -27,6 +27,7 @@ type SchedCase struct {
 	New        string `json:"new"`
 	Partitions int    `json:"partitions"`
 	Conc       int    `json:"conc"`
+	Cap        int    `json:"cap,omitempty"` // capacity replacing the scanner's 256-slot channels
 	Bound      int    `json:"bound"`
 	Schedule   []int  `json:"schedule,omitempty"`
 }
@@ -34,6 +35,8 @@ type SchedCase struct {
 func schedBody(w *runner.W) {
 	var sub *runner.Sub[SchedCase]
 	sub = runner.NewSub(w, "scanner-interleavings", func(sc SchedCase, r *runner.Rec) {
+		vsched.SetCapOverride(sc.Cap)
+		defer vsched.SetCapOverride(0)
 		var ctrls []*bsdiff.Control
 		var derr error
 		bodyFn := func() {
@@ -180,6 +183,10 @@ func schedBody(w *runner.W) {
 			{Old: "abcdefgh", New: "abx", Partitions: 3, Bound: bq(0, 1)},
 			{Old: "abcdefgh", New: "abcdefgh", Partitions: 2, Bound: bq(1, 2)},
 			{Old: "xyzxyz", New: "xyzxy", Partitions: 2, Conc: 2, Bound: bq(1, 1)},
+			// match channels scaled to 1-2 slots, one block yielding several matches
+			{Old: "abcdefghijklmnopqrstuvwx0123456789yz", New: "0123456789yz--abcdefghijkl++mnopqrstuvwx", Partitions: 0, Cap: 1, Bound: bq(2, 3)},
+			{Old: "abcdefghijklmnopqrstuvwx0123456789yz", New: "0123456789yz--abcdefghijkl++mnopqrstuvwx", Partitions: 0, Cap: 2, Bound: bq(2, 3)},
+			{Old: "abcdefghijklmnopqrstuvwx0123456789yzABCDEFGHIJKL", New: "0123456789yz--abcdefghijkl++mnopqrstuvwx==ABCDEFGHIJKL..0123456789yz", Partitions: 2, Cap: 1, Bound: bq(1, 2)},
 		}
 		if !w.Quick() {
 			scs = append(scs, SchedCase{Old: "abcdefghij", New: "abcx", Partitions: 4, Bound: 0})
